@@ -108,6 +108,43 @@ def final_check(p, label, rep):
                 fails.append(Failure('property', 'collision:child-sas-differ',
                                      f'{label}: CHILD_SAs of IKE_SA {k[0].hex()} differ: A {sorted(x[0].hex() for x in ca)} '
                                      f'B {sorted(x[1].hex() for x in cb)}', rep))
+    # "the same CHILD_SAs": what the two kernels hold is the same set of SAs with the same keys
+    if not fails and set(ea) == set(eb) and ea:
+        def canon(sad):
+            return {(k[0], k[1], bytes(k[2])): (r['saddr'], r['mode'], {kk: (vv[0], vv[1], bytes(vv[2])) for kk, vv in r['algs'].items()})
+                    for k, r in sad.items()}
+        sa_, sb_ = canon(p.A.kernel.sad), canon(p.B.kernel.sad)
+        if sa_ != sb_:
+            diff = sorted(k for k in set(sa_) | set(sb_) if sa_.get(k) != sb_.get(k))
+            fails.append(Failure('property', 'collision:kernel-sas-differ',
+                                 f'{label}: both peers are idle and list the same CHILD_SAs, but {len(diff)} kernel SA(s) differ '
+                                 f'between the two kernels (keys / algorithms / presence); first: {diff[0][0]} proto {diff[0][1]} '
+                                 f'spi {diff[0][2].hex()}', rep))
+    return fails
+
+
+def crossing_exchanges(ctx, seed):
+    """Two CHILD_SAs under one IKE_SA, PFS for CHILD_SAs; exchanges about DIFFERENT CHILD_SAs started at both ends at
+    the same moment (rekey x rekey, rekey x new, delete x rekey), delivered in every order of the first two datagrams."""
+    fails = []
+    D = ['deliver', 0]
+    base = [list(a) for a in HANDSHAKE] + [['acquire', 'A', 81], D, D]
+    pairs = [(['expire', 'A', 0, 0], ['expire', 'B', 1, 0]), (['expire', 'A', 0, 0], ['acquire', 'B', 0]),
+             (['expire', 'A', 0, 1], ['expire', 'B', 1, 0]), (['acquire', 'A', 82], ['expire', 'B', 0, 0])]
+    for ta, tb in pairs:
+        for order in ([0, 0], [1, 0]):
+            rep = {'crossing': [ta, tb, order], 'seed': seed}
+            with Pair(seed=seed, dpd=10, child_dh=('ecp256',)) as p:
+                try:
+                    p.run(base + [ta, tb] + [['deliver', i] for i in order])
+                    p.drain()
+                    ctx.case({'crossing': [ta[0], tb[0], order]}, nontrivial=True)
+                    ctx.count('crossing-exchanges')
+                    fails += final_check(p, f'crossing {ta} x {tb} order {order} (PFS)', rep)
+                except LoopEscape as ex:
+                    fails.append(Failure('property', 'loop:escaped-exception', f'crossing {ta} x {tb}: {ex.exc!r}', rep))
+            if fails:
+                return fails
     return fails
 
 
@@ -217,7 +254,9 @@ def correspond(ctx):
 
 
 def oracle(ctx, deep):
-    fails = []
+    fails = crossing_exchanges(ctx, ctx.rng.getrandbits(32))
+    if fails:
+        return fails
     kinds = [k for k in TRIGGERS if k != 'none']
     # exhaustive, depth bounded
     pairs = list(itertools.product(kinds + ['none'], kinds + ['none']))
@@ -270,6 +309,8 @@ def oracle(ctx, deep):
 
 
 def replay(ctx, obj):
+    if 'crossing' in obj:
+        return crossing_exchanges(ctx, obj['seed'])
     if 'schedule' in obj:
         noise = tuple(obj['noise']) if obj.get('noise') else None
         return run_schedule(ctx, obj['seed'], obj['ta'], obj['tb'], obj['schedule'], noise=noise)[0]
